@@ -38,6 +38,10 @@ type faultCase struct {
 	Op     opgen.Op       `json:"op"`
 	Faults []Fault        `json:"faults"`
 	Enum   bool           `json:"enumerate,omitempty"` // enumerate all single faults and transport pairs instead of Faults
+	// Requires marks cases of the @requires part: a well-formed null answer legitimately lets
+	// the dependent fetch run with a null required field while a transport failure skips it, so
+	// the fault-kind independence relation is not applied there.
+	Requires bool `json:"requires,omitempty"`
 }
 
 // failure kinds named by the property statement (an error must be reported) …
@@ -62,12 +66,12 @@ func allowFromEnv() map[string]bool {
 	return m
 }
 
-func genCase(t *rapid.T) faultCase {
+func genCase(t *rapid.T, requires bool) faultCase {
 	// a fetch that serves two places with different producers (merged by fetch de-duplication)
 	// is skipped as a whole when one producer fails: finding C07-merged-fetch-skipped-as-a-whole;
 	// the layouts and operations that lead to such fetches are kept out by construction
 	multi := allowFromEnv()["multi-producer-fetch"]
-	l := fedgen.Gen(t, fedgen.Options{Allow: allowFromEnv(), NoRequires: !allowFromEnv()["requires"],
+	l := fedgen.Gen(t, fedgen.Options{Allow: allowFromEnv(), NoRequires: !allowFromEnv()["requires"] && !requires,
 		Exclude: map[string]bool{"split-iface-composite": !multi, "provides-on-iface-field": !multi}})
 	super, err := sim.LoadSuper(l.Super)
 	if err != nil {
@@ -79,7 +83,7 @@ func genCase(t *rapid.T) faultCase {
 
 var faultPart = pbt.Part[faultCase]{Name: "fault-isolation-random", Quick: 7000, Thorough: 140000, Check: checkFault,
 	Gen: func(t *rapid.T) faultCase {
-		c := genCase(t)
+		c := genCase(t, false)
 		n := rapid.IntRange(1, 3).Draw(t, "nfaults")
 		kinds := append(append(append(append([]string{}, failKinds...), entityKinds...), softKinds...), nonFaults...)
 		for i := 0; i < n; i++ {
@@ -88,9 +92,25 @@ var faultPart = pbt.Part[faultCase]{Name: "fault-isolation-random", Quick: 7000,
 		return c
 	}}
 
+// requiresPart: layouts with @requires fields (chains of dependent fetches), transport
+// failures only. After any other failure kind the gateway still sends the dependent fetch
+// with a null required field (finding C07-requires-fetch-sent-with-null-required-field), so
+// the other parts keep @requires out; a transport failure makes it skip the dependants,
+// and that skip has to carry through every later hop of the chain.
+var requiresPart = pbt.Part[faultCase]{Name: "fault-isolation-requires-transport", Quick: 3000, Thorough: 60000, Check: checkFault,
+	Gen: func(t *rapid.T) faultCase {
+		c := genCase(t, true)
+		c.Requires = true
+		n := rapid.IntRange(1, 2).Draw(t, "nfaults")
+		for i := 0; i < n; i++ {
+			c.Faults = append(c.Faults, Fault{Req: rapid.IntRange(0, 11).Draw(t, "req"), Kind: rapid.SampledFrom([]string{"transport", "transport", "transport", "gzip-ok"}).Draw(t, "kind")})
+		}
+		return c
+	}}
+
 var enumPart = pbt.Part[faultCase]{Name: "fault-isolation-enumeration", Quick: 700, Thorough: 14000, Check: checkFault,
 	Gen: func(t *rapid.T) faultCase {
-		c := genCase(t)
+		c := genCase(t, false)
 		c.Enum = true
 		return c
 	}}
@@ -638,7 +658,7 @@ func checkOneFaultSet(gw *kit.Gateway, c faultCase, base *runResult, byKey map[s
 		}
 	}
 	h := run(gw, c.Op, honest)
-	if h.res.Err == nil && h.res.Panic == "" && h.parsed {
+	if h.res.Err == nil && h.res.Panic == "" && h.parsed && !c.Requires {
 		if !ref.Equal(h.data, f.data) {
 			return pbt.Bad("data under the injected fault kinds differs from data when the same requests deliver nothing (well-formed null answer)\n fault:  %s\n honest: %s%s", ref.Canon(f.data), ref.Canon(h.data), ctx(h)), false
 		}
